@@ -28,6 +28,11 @@ Verdict(st) ==
             THEN "C49:runcards-example-cards-not-dumped"
        ELSE IF st.cardsEq = "differ" THEN "C49:example-cards-differ"
        ELSE "C49:runcards-example-failed"
+  ELSE IF st.cmd.op \in I!Inspects THEN
+       IF I!Inspect(st) THEN "ok"
+       ELSE IF st.post # st.pre THEN "DIAG:inspect-modified-the-working-directory"
+       ELSE IF st.ops = "differ" THEN "DIAG:inspect-output-differs-from-library"
+       ELSE "DIAG:inspect-exit-status"
   ELSE IF I!Runnable(st.cmd, st.pre) THEN
        IF I!C49_Run(st) THEN "ok"
        ELSE IF st.ops = "differ" THEN "C49:cli-operators-differ"
